@@ -19,6 +19,7 @@ var checks = map[string]func(tier string) *core.Report{
 	"C06": progcheck.C06,
 	"C07": progcheck.C07,
 	"C11": progcheck.C11,
+	"C12": progcheck.C12,
 	"C18": progcheck.C18,
 	"C14": progcheck.C14,
 	"C17": progcheck.C17,
